@@ -282,6 +282,7 @@ var schedReplXsync = map[string]string{
 
 var schedReplCache = map[string]string{
 	"type:atomic.Value": "vxAtomicValue",
+	"type:sync.Mutex":   "xsync.VxMutex",
 }
 
 // NativeOverlay builds the overlay used for native replays: harness files,
